@@ -405,6 +405,32 @@ func (sc *c11Scenario) laws(s *simrt.Sim, add func(clause, fp, detail string)) {
 			add("value", "MonadIO-method-constructors", fmt.Sprintf("MonadIO.Just(41).Eval()=%v, MonadIO.New(..).Eval()=%v, Just(41).FlatMap(..).Eval()=%v, effect counter %d (want 41, n, 41+, 11)", v1, v2, v3, ran))
 		}
 	}
+	// nil is a value like any other: Just(nil).FlatMap(f) is f(nil), and a nil produced in the middle of a chain
+	// flows into the next step (interface-typed and pointer-typed monads)
+	{
+		calls := 0
+		got := fpgo.MonadIO.Just(nil).FlatMap(func(v interface{}) *fpgo.MonadIODef[interface{}] {
+			calls++
+			return fpgo.MonadIO.Just(fmt.Sprintf("f(%v)", v))
+		}).Eval()
+		if got != "f(<nil>)" || calls != 1 {
+			add("law", "left-identity-with-nil", fmt.Sprintf("Just(nil).FlatMap(f).Eval() = %v with f called %d times; f(nil).Eval() = f(<nil>)", got, calls))
+		}
+		type box struct{ n int }
+		steps := 0
+		pm := fpgo.MonadIONewGenerics(func() *box { return nil }).
+			FlatMap(func(b *box) *fpgo.MonadIODef[*box] {
+				steps++
+				if b == nil {
+					return fpgo.MonadIOJustGenerics(&box{n: 7})
+				}
+				return fpgo.MonadIOJustGenerics(b)
+			}).
+			FlatMap(func(b *box) *fpgo.MonadIODef[*box] { steps += 10; return fpgo.MonadIOJustGenerics(b) })
+		if r := pm.Eval(); r == nil || r.n != 7 || steps != 11 {
+			add("once-per-evaluation", "nil-pointer-in-the-middle-of-a-chain", fmt.Sprintf("New(nil *box).FlatMap(fallback).FlatMap(id).Eval() = %v after %d step marks (want the fallback box 7, marks 11)", r, steps))
+		}
+	}
 	// Eval is synchronous on the caller whatever handlers the MonadIO carries - also handlers that have been
 	// closed meanwhile (fault: the handler is gone): the effect runs once, here, and the value comes back
 	{
